@@ -353,6 +353,59 @@ def r6_def_installs_the_value(ctx):
                "" if ok else f"bind_root(val) is skipped under `{P.un((bad or extra)[0])}`: a redefinition with an equal-but-distinct value leaves the Var's root stale while the module global changes")
 
 
+@rule("C10.R10", floor=1)
+def r10_resolution_follows_the_var_not_the_spelling(ctx):
+    """'A symbol denotes the same Var whether written bare (interned or referred), through an alias
+    or fully qualified': the runtime's symbol resolution (resolve_alias, used by syntax-quote,
+    resolve and ns-resolve) must name a referred Var by the Var's own name and namespace, not by
+    the local nickname it was referred under."""
+    from .C09 import resolve_alias_problem
+    ra = ctx.fn(RT, "resolve_alias")
+    problem = resolve_alias_problem(ra)
+    ctx.ob("C10.R10", f"{RT}::resolve_alias::a bare symbol resolves to the Var's own name and namespace", RT, ra.lineno, problem is None, problem or "",
+           witness="(refer 'lib :rename '{orig renamed}) (resolve 'renamed) must be #'lib/orig")
+
+
+OPT = "src/basilisp/lang/compiler/optimizer.py"
+
+
+@rule("C10.R9", floor=4)
+def r9_every_function_declares_its_own_globals(ctx):
+    """A `def` inside a function assigns the module global that direct-linked references read, which
+    needs `global NAME` in *that* function: Python's global declarations do not reach into nested
+    functions.  The optimizer, which de-duplicates and hoists these declarations, must therefore
+    start every function with an empty set of declared names and emit exactly the names collected
+    for that function -- nothing inherited from, or subtracted because of, the enclosing function."""
+    tree = ctx.py(OPT)
+    cls = P.find_def(tree, "PythonASTOptimizer")
+    if cls is None:
+        raise AnalysisError("anchor vanished: PythonASTOptimizer")
+    ms = P.methods(cls)
+    ngc = ms.get("_new_global_context")
+    if ngc is None:
+        raise AnalysisError("anchor vanished: PythonASTOptimizer._new_global_context")
+    pushes = [c for c in P.calls(ngc) if P.un(c.func) == "self._global_ctx.append"]
+    ok = len(pushes) == 1 and P.un(pushes[0].args[0]) in ("set()", "set([])", "set(())")
+    ctx.ob("C10.R9", f"{OPT}::_new_global_context starts a function with no declared names", OPT, ngc.lineno, ok,
+           "" if ok else f"a function's context starts from `{P.un(pushes[0].args[0]) if pushes else '?'}`: declarations of the enclosing function are taken to hold in the nested one, whose own `global` is then dropped -- its def binds a local, and direct-linked reads keep the old value",
+           witness="(defn init! [] (def level 1) (fn upgrade! [] (def level 2))) ((init!)) level  => 1 with direct linking, 2 through the Var")
+    for vname in ("visit_FunctionDef", "visit_AsyncFunctionDef"):
+        v = ms.get(vname)
+        if v is None:
+            raise AnalysisError(f"anchor vanished: PythonASTOptimizer.{vname}")
+        withs = [w for w in ast.walk(v) if isinstance(w, ast.With) and any("_new_global_context" in P.un(i.context_expr) for i in w.items)]
+        ok = bool(withs)
+        ctx.ob("C10.R9", f"{OPT}::{vname} visits its body in a fresh global context", OPT, v.lineno, ok, "" if ok else f"{vname} shares the enclosing function's declared names")
+        var = next((P.un(i.optional_vars) for w in withs for i in w.items if i.optional_vars is not None), None)
+        if var is not None:
+            reassigned = [a for a in ast.walk(v) if isinstance(a, (ast.Assign, ast.AugAssign, ast.AnnAssign)) and any(isinstance(t, ast.Name) and t.id == var for t in P.store_targets(a))]
+            uses = [c for c in P.calls(v) if any(isinstance(x, ast.Name) and x.id == var for a in c.args for x in ast.walk(a))]
+            narrowed = [c for c in uses for a in c.args for x in ast.walk(a) if (isinstance(x, ast.BinOp) and isinstance(x.op, (ast.Sub, ast.BitAnd))) or (isinstance(x, ast.Call) and P.un(x.func).split(".")[-1] in ("difference", "intersection"))]
+            ok = not reassigned and not narrowed
+            ctx.ob("C10.R9", f"{OPT}::{vname} emits exactly the names collected for this function", OPT, v.lineno, ok,
+                   "" if ok else f"`{var}` is narrowed before it is emitted ({P.un((reassigned or narrowed)[0])[:70]}): a name the enclosing function also declares is not declared here, so this function's def binds a local")
+
+
 CORE = "src/basilisp/core.lpy"
 
 
